@@ -80,6 +80,10 @@ def schemata(lf):
                 f_not(ex(en, ex(en + "'", f_and([f_not(A(f"each({en})'[0]==each({en})[0]")),
                                                  A(f"each({en})'[1]==each({en})[1]")]))))]
 
+    def NORM(D):
+        # the OS after normalisation: 'none' (any case) -> None, anything else unchanged
+        return f"(str({D}['os']).lower()=='none' ? None : {D}['os'])"
+
     def action_schemata(prefix, D, items, keys_show, keyname, listname):
         L = [items]
         return [
@@ -94,8 +98,9 @@ def schemata(lf):
              None),
             (f"{prefix}.{keyname}", f"{prefix} {keyname} is a declared {keyname}", L,
              [A(f"{D}['{keyname}'] in Y['{listname}']")], None),
-            (f"{prefix}.os", f"{prefix} OS is none or a declared OS", L,
-             [f_or([A(f"None is {D}['os']"), A(f"{D}['os'] in Y['os']")])], None),
+            (f"{prefix}.os", f"{prefix} OS is 'none' (any case) or a declared OS", L,
+             [f_or([A(f"'none'==str({D}['os']).lower()"), A(f"None is {D}['os']"),
+                    A(f"{D}['os'] in Y['os']")])], None),
             (f"{prefix}.prob", f"{prefix} probability within [0, 1]", L,
              [f_not(A(f"{D}['prob']<0")),
               alt(f_not(A(f"1<{D}['prob']")), f_not(A(f"1.0<{D}['prob']")),
@@ -207,17 +212,20 @@ def find_guard(lf, conj, loops, allowed, swallowed):
     for g in lf.guards:
         if g in swallowed:
             continue
-        if f_atoms(conj) - f_atoms(g.F):
+        res = lf.residual_formula(g)
+        # the guard lets a document pass when it is not reached (not res) or its test holds; a
+        # document within the (optional-key) presence condition must then satisfy the conjunct:
+        #      allowed & (!res | F)  =>  conjunct
+        passes = f_or([f_not(res), g.F]) if res != ("true",) else g.F
+        lhs = f_and([allowed, passes]) if allowed is not None else passes
+        if not (f_atoms(conj) & f_atoms(lhs)):
             continue
-        if not f_implies(g.F, conj):
+        if not f_implies(g.F, conj) and not f_implies(lhs, conj):
             continue
         near = near or (g, "loops" if g.loops != loops else "residual")
         if g.loops != loops:
             continue
-        res = lf.residual_formula(g)
-        if res == ("true",):
-            return g, None
-        if allowed is not None and f_implies(allowed, res):
+        if f_implies(lhs, conj):
             return g, None
         near = (g, "residual")
     return None, near
